@@ -85,7 +85,28 @@ def build_pipeline(spec: dict | None, **kwargs: Any) -> ProcessingPipeline | Non
     """Fresh pipeline object from a YAML-level spec (from_dict mutates its argument: deep-copy)."""
     if spec is None:
         return None
-    return ProcessingPipeline.from_dict(copy.deepcopy(spec), **kwargs)
+    spec = copy.deepcopy(spec)
+    # "nest" post-processing items cannot be built from a dict by the pinned tree (the item factory hands the
+    # inner dicts to the dataclass constructor); they are built with the Python API: a stand-in item carries
+    # the identifier and conditions through from_dict, then receives the nested transformation.
+    nests: dict[int, list[dict]] = {}
+    for idx, pp in enumerate(spec.get("postprocessing") or []):
+        if isinstance(pp, dict) and pp.get("type") == "nest":
+            nests[idx] = pp.pop("items")
+            pp["type"] = "embed"
+            pp["prefix"] = ""
+    p = ProcessingPipeline.from_dict(spec, **kwargs)
+    for idx, inner in nests.items():
+        from sigma.processing.pipeline import QueryPostprocessingItem
+        from sigma.processing.postprocessing import NestedQueryPostprocessingTransformation
+
+        item = p.postprocessing_items[idx]
+        nested = NestedQueryPostprocessingTransformation(
+            items=[QueryPostprocessingItem.from_dict(copy.deepcopy(i)) for i in inner])
+        item.transformation = nested
+        nested.set_processing_item(item)
+        nested.set_pipeline(p)
+    return p
 
 
 def load_collection(docs: list[dict], **kwargs: Any) -> SigmaCollection:
